@@ -85,6 +85,7 @@ def _make_body():
     body += '  fprintf(stdout, "I SAT_DISARM_GUARDED %d\\n");\n' % d
     body += '  fprintf(stdout, "I SAT_RESET_GUARDED %d\\n");\n' % r
     body += '  fprintf(stdout, "I CHAIN_WINDOW_US %d\\n");\n' % _chain_window_us()
+    body += _shape_lines()
     # (call id, payload size accepted by srpc_getdata) of the calls a device handles: only for the case generator (json)
     for cid, size in VALID_SIZES:
         body += '  fprintf(stdout, "L VALIDSIZES %%d %%d\\n", (int)(%s), (int)(%s));\n' % (cid, size)
@@ -139,6 +140,56 @@ def _chain_window_us():
     body = src[m.end():]
     g = re.search(r'\(\s*\(?\s*system_get_time\s*\(\s*\)\s*-\s*input_cfg->last_state_change\s*>=\s*(\d+)\s*\*\s*(\d+)\s*\)', body)
     return int(g.group(1)) * int(g.group(2)) if g else 0
+
+# source-shape pins: (constant, file, function, regex) -> number of matches inside the comment-stripped body of that function
+SHAPES = [
+    ('SHAPE_CALCFG_AUTH_EQ_1', 'supla_esp_devconn.c', 'supla_esp_calcfg_request', r'request->SuperUserAuthorized\s*==\s*1\b'),
+    ('SHAPE_CALCFG_NOT_AUTH', 'supla_esp_devconn.c', 'supla_esp_calcfg_request', r'!\s*request->SuperUserAuthorized\b'),
+    ('SHAPE_CALCFG_AUTH_USES', 'supla_esp_devconn.c', 'supla_esp_calcfg_request', r'SuperUserAuthorized'),
+    ('SHAPE_CALCFG_CMD_ENTER', 'supla_esp_devconn.c', 'supla_esp_calcfg_request', r'request->Command\s*==\s*SUPLA_CALCFG_CMD_ENTER_CFG_MODE\b'),
+    ('SHAPE_CALCFG_CMD_RECAL', 'supla_esp_devconn.c', 'supla_esp_calcfg_request', r'request->Command\s*==\s*SUPLA_CALCFG_CMD_RECALIBRATE\b'),
+    ('SHAPE_CALCFG_START', 'supla_esp_devconn.c', 'supla_esp_calcfg_request', r'supla_esp_cfgmode_start_with_timeout\s*\(\s*\)'),
+    ('SHAPE_LTIMER_HOLD_TEST', 'supla_esp_input.c', 'supla_esp_input_legacy_timer_cb',
+     r'system_get_time\s*\(\s*\)\s*-\s*input_cfg->last_state_change\s*>=\s*GET_CFG_PRESS_TIME\s*\(\s*input_cfg\s*\)\s*\*\s*1000\b'),
+    ('SHAPE_LTIMER_NOT_STARTED', 'supla_esp_input.c', 'supla_esp_input_legacy_timer_cb', r'if\s*\(\s*supla_esp_cfgmode_started\s*\(\s*\)\s*==\s*0\s*\)'),
+    ('SHAPE_LTIMER_ELSE_FACTORY', 'supla_esp_input.c', 'supla_esp_input_legacy_timer_cb',
+     r'\}\s*else\s+if\s*\(\s*input_cfg->flags\s*&\s*INPUT_FLAG_FACTORY_RESET\s*\)'),
+    ('SHAPE_LTIMER_ACTIVE', 'supla_esp_input.c', 'supla_esp_input_legacy_timer_cb', r'input_cfg->last_state\s*==\s*INPUT_STATE_ACTIVE'),
+    ('SHAPE_LTIMER_HOLD_ENABLED', 'supla_esp_input.c', 'supla_esp_input_legacy_timer_cb', r'supla_esp_input_is_cfg_on_hold_enabled\s*\(\s*input_cfg\s*\)'),
+    ('SHAPE_ATIMER_HOLD_TEST', 'supla_esp_input.c', 'supla_esp_input_advanced_timer_cb', r'delta_time\s*>=\s*GET_CFG_PRESS_TIME\s*\(\s*input_cfg\s*\)\s*\*\s*1000\b'),
+    ('SHAPE_ATIMER_MULTICLICK_TEST', 'supla_esp_input.c', 'supla_esp_input_advanced_timer_cb', r'delta_time\s*>=\s*btn_multiclick_time_ms\s*\*\s*1000\b'),
+    ('SHAPE_ATIMER_DELTA', 'supla_esp_input.c', 'supla_esp_input_advanced_timer_cb',
+     r'unsigned\s+int\s+delta_time\s*=\s*system_get_time\s*\(\s*\)\s*-\s*input_cfg->last_state_change\s*;'),
+    ('SHAPE_LEGACY_COUNT_TEST', 'supla_esp_input.c', 'supla_esp_input_legacy_state_change_handling',
+     r'supla_esp_input_is_cfg_on_toggle_enabled\s*\(\s*input_cfg\s*\)\s*&&\s*input_cfg->click_counter\s*>=\s*CFG_BTN_PRESS_COUNT\b'),
+    ('SHAPE_ADV_COUNT_TEST', 'supla_esp_input.c', 'supla_esp_input_advanced_state_change_handling', r'input_cfg->click_counter\s*>=\s*CFG_BTN_PRESS_COUNT\b'),
+    ('SHAPE_ADV_TOGGLE_GUARD', 'supla_esp_input.c', 'supla_esp_input_advanced_state_change_handling', r'if\s*\(\s*supla_esp_input_is_cfg_on_toggle_enabled\s*\(\s*input_cfg\s*\)\s*\)'),
+    ('SHAPE_HOLD_PRED_CFG_BTN', 'supla_esp_input.c', 'supla_esp_input_is_cfg_on_hold_enabled', r'!\s*\(\s*input_cfg->flags\s*&\s*INPUT_FLAG_CFG_BTN\s*\)'),
+    ('SHAPE_HOLD_PRED_MONO', 'supla_esp_input.c', 'supla_esp_input_is_cfg_on_hold_enabled', r'input_cfg->type\s*==\s*INPUT_TYPE_BTN_MONOSTABLE'),
+    ('SHAPE_TOGGLE_PRED_CFG_BTN', 'supla_esp_input.c', 'supla_esp_input_is_cfg_on_toggle_enabled', r'!\s*\(\s*input_cfg->flags\s*&\s*INPUT_FLAG_CFG_BTN\s*\)'),
+    ('SHAPE_START_GUARD', 'supla_esp_input.c', 'supla_esp_input_start_cfg_mode', r'if\s*\(\s*supla_esp_cfgmode_started\s*\(\s*\)\s*==\s*0\s*\)'),
+    ('SHAPE_CFGMODE_START_GUARD', 'supla_esp_cfgmode.c', 'supla_esp_cfgmode_start', r'if\s*\(\s*cfgmode_vars\.entertime\s*!=\s*0\s*\)\s*return\s*;'),
+    ('SHAPE_FACTORY_KEEPS_ID', 'supla_esp_cfg.c', 'factory_defaults', r'memcpy\s*\(\s*supla_esp_cfg\.(GUID|AuthKey|TAG)\s*,'),
+    ('SHAPE_CFGINIT_VALID_TEST', 'supla_esp_cfg.c', 'supla_esp_cfg_init',
+     r'memcmp\s*\(\s*supla_esp_cfg\.TAG\s*,\s*TAG\s*,\s*6\s*\)\s*==\s*0\s*&&\s*memcmp\s*\(\s*supla_esp_cfg\.AuthKey\s*,\s*AuthKey\s*,\s*SUPLA_AUTHKEY_SIZE\s*\)\s*!=\s*0\s*&&\s*memcmp\s*\(\s*supla_esp_cfg\.GUID\s*,\s*GUID\s*,\s*SUPLA_GUID_SIZE\s*\)\s*!=\s*0'),
+    ('SHAPE_BOOT_COND', 'user_main.c', 'user_init',
+     r'\(\s*\(\s*supla_esp_cfg\.LocationID\s*==\s*0\s*\|\|\s*supla_esp_cfg\.LocationPwd\[0\]\s*==\s*0\s*\)\s*&&\s*supla_esp_cfg\.Email\[0\]\s*==\s*0\s*\)\s*\|\|\s*supla_esp_cfg\.Server\[0\]\s*==\s*0\s*\|\|\s*supla_esp_cfg\.WIFI_PWD\[0\]\s*==\s*0\s*\|\|\s*supla_esp_cfg\.WIFI_SSID\[0\]\s*==\s*0\s*\)\s*\{\s*supla_esp_cfgmode_start\s*\(\s*\)\s*;\s*return\s*;'),
+    ('SHAPE_SETCH_RECAL_FLAG', 'supla_esp_devconn.c', 'supla_esp_devconn_set_channels', r'Flags\s*\|=\s*SUPLA_CHANNEL_FLAG_CALCFG_RECALIBRATE'),
+]
+def _fn_body(fname, fn):
+    src = open(os.path.join(G.REPO, 'src', 'user', fname)).read()
+    src = re.sub(r'/\*.*?\*/', '', src, flags=re.S); src = re.sub(r'//[^\n]*', '', src)
+    for m in re.finditer(r'\b' + re.escape(fn) + r'\s*\([^;{)]*\)\s*\{', src):
+        i = m.end(); depth = 1
+        while i < len(src) and depth:
+            depth += {'{': 1, '}': -1}.get(src[i], 0); i += 1
+        return src[m.end():i]
+    return ''
+def _shape_lines():
+    out = ''
+    for name, fname, fn, rx in SHAPES:
+        out += '  fprintf(stdout, "I %s %d\\n");\n' % (name, len(re.findall(rx, _fn_body(fname, fn))))
+    return out
 
 class _LazyGroup(dict):
     """the call-site scan runs only when this group is actually generated"""
@@ -253,6 +304,6 @@ G.GROUPS['C12Consts'] = _LazyGroup(
         ('CFG_SECTOR_', 'CFG_SECTOR'),
         ('CFG_SIZE', 'sizeof(SuplaEspCfg)'),
     ] + [('FN_' + n, str(i)) for n, i in FID.items()],
-    extra_names=['CALLSITES', 'DISPATCH', 'SAT_DISARM_GUARDED', 'SAT_RESET_GUARDED', 'CHAIN_WINDOW_US'],
+    extra_names=['CALLSITES', 'DISPATCH', 'SAT_DISARM_GUARDED', 'SAT_RESET_GUARDED', 'CHAIN_WINDOW_US'] + [x[0] for x in SHAPES],
     flags=['-DVERIF_RETREIVE_CHANNEL_CONFIG'],
 )
